@@ -79,8 +79,9 @@ int number(Tree& t, int& nodes, int& leaves) {  // assigns node ids (pre-order) 
 
 // ---- which callable throws (fault enumeration): node id of the throwing callable, or -1 -----------------
 int g_throw_node = -1;
+bool g_thrown = false;   // the injected fault is one-shot: a callable that is invoked again (retry_when, repeat_effect_until) succeeds
 struct injected_fault { int node; };
-void maybe_throw(int node) { if (node == g_throw_node) throw kit::tagged_error{900 + node}; }
+void maybe_throw(int node) { if (node == g_throw_node && !g_thrown) { g_thrown = true; throw kit::tagged_error{900 + node}; } }
 
 using any_int_sender = any_sender_of<int>;
 
@@ -196,7 +197,8 @@ struct Model {
     n->kids[i] = k;
     start(k, child_tok(n), child_exp(n, n->exp));
   }
-  bool thrower(MNode* n) { return n->t->id == g_throw_node; }
+  bool model_thrown = false;
+  bool thrower(MNode* n) { if (n->t->id != g_throw_node || model_thrown) return false; model_thrown = true; return true; }
   Res fault(MNode* n) { return Res{'E', 900 + n->t->id}; }
   Res leaf_res(int leaf, char ch) { return ch == 'V' ? Res{'V', leaf + 1} : ch == 'E' ? Res{'E', leaf + 1} : Res{'D', 0}; }
 
@@ -358,10 +360,25 @@ void run_tree(Tree t, const Options& opt) {
   int nodes = 0, nleaves = 0;
   number(t, nodes, nleaves);
   // which callable throws?
-  g_throw_node = -1;
+  g_throw_node = -1; g_thrown = false;
   if (opt.faults) {
     std::vector<int> callables;
-    std::function<void(const Tree&)> walk = [&](const Tree& x) { if (has_callable(x.kind)) callables.push_back(x.id); for (auto& k : x.kids) walk(k); };
+    // Factories that run at connect time (let_value_with, let_value_with_stop_source/token) are offered as throwers only
+    // where they are connected eagerly from the outer connect(): the exception then escapes connect(), which the driver
+    // handles.  Below a lazily connected position (successor of let_*/sequence/finally, trigger of retry_when) the parent
+    // turns the throw into set_error; that path is covered model-free by expr_cfault (a leaf's connect throws there).
+    // (EX_NX: they may sit below an rvalue connect that is declared noexcept there, so they are never offered.)
+    std::function<void(const Tree&, bool)> walk2 = [&](const Tree& x, bool eager) {
+      bool at_connect = x.kind == LET_VALUE_WITH || x.kind == LVSS || x.kind == LVST;
+      if (has_callable(x.kind) && !(at_connect && (EX_NX || !eager))) callables.push_back(x.id);
+      for (size_t i = 0; i < x.kids.size(); ++i) {
+        bool lazy_kid = (i == 1 && (x.kind == LETV || x.kind == LETE || x.kind == LETD || x.kind == SEQ || x.kind == FIN || x.kind == RETRY)) || at_connect ||
+                        x.kind == WANY ||  // (when_any is built on let_value_with_stop_source: its children are connected at start)
+                        x.kind == ON;      // (on(s, x) = sequence(schedule(s), x): x is connected when the schedule completes)
+        walk2(x.kids[i], eager && !lazy_kid);
+      }
+    };
+    std::function<void(const Tree&)> walk = [&](const Tree& x) { walk2(x, true); };
     walk(t);
     int c = vmc::choose((int)callables.size() + 1);
     if (c > 0) g_throw_node = callables[c - 1];
@@ -507,7 +524,7 @@ void run_tree(Tree t, const Options& opt) {
 void run_tree_connect_fault(Tree t) {
   int nodes = 0, nleaves = 0;
   number(t, nodes, nleaves);
-  g_throw_node = -1;
+  g_throw_node = -1; g_thrown = false;
   ex::Ctx ctx; ex::g = &ctx;
   ctx.leaves.resize(nleaves);
   ctx.throw_connect_leaf = vmc::choose(nleaves);
